@@ -112,30 +112,44 @@ def cut(data: bytes, cuts):
 
 
 class Recorder:
-    def __init__(self):
+    def __init__(self, raise_on=None, exc=None):
         self.got = []
         self.fed = 0
         self.when = []
+        self.raise_on = raise_on  # index of the delivered packet on which the sink raises
+        self.exc = exc
 
     def on_packet(self, p):
         self.got.append(p)
         self.when.append(self.fed)
+        if self.raise_on is not None and len(self.got) - 1 == self.raise_on:
+            raise self.exc
+
+
+class SinkFault(Exception):
+    pass
 
 
 def node(parser):
     return (parser.state, parser.bytes_needed, len(parser.packet), parser.packet[0] if parser.packet else None)
 
 
-def run_push(pkts, data, cuts, graph=None):
-    """Returns None if OK, else message."""
+def run_push(pkts, data, cuts, graph=None, raise_on=None, exc=None):
+    """Returns None if OK, else message.  With raise_on, the sink raises `exc` while handling that
+    packet: whatever the handler does, the parser must go on framing the stream."""
     from bumble.transport.common import PacketParser
 
-    rec = Recorder()
+    rec = Recorder(raise_on, exc)
     parser = PacketParser(rec)
     prev = node(parser)
     for chunk in cut(data, cuts):
         rec.fed += len(chunk)
-        parser.feed_data(chunk)
+        try:
+            parser.feed_data(chunk)
+        except Exception as e:  # only possible when the sink was made to raise
+            if raise_on is None:
+                raise
+            return f'sink fault {type(exc).__name__} on packet {raise_on} escaped from feed_data as {type(e).__name__}: the rest of the chunk is lost'
         if graph is not None:
             cur = node(parser)
             graph[0].add(cur)
@@ -280,6 +294,17 @@ def w_chunking(arg):
                 if msg:
                     st.violation('push_chunking', {'framer': 'PacketParser', 'stream': [list(c) for c in combo]}, msg, {'combo': combo, 'cuts': cuts})
                     break
+                if n <= 600 and len(cuts) <= 2:
+                    # the packet handler fails on one packet (any exception type): later packets are still framed
+                    import struct as _struct
+
+                    for k in range(len(pkts)):
+                        for exc in (ValueError('x'), _struct.error('x'), SinkFault('x'), KeyError('x')):
+                            st.count('sink_fault_runs')
+                            msg = run_push(pkts, data, cuts, None, k, exc)
+                            if msg:
+                                st.violation('push_sink_fault', {'framer': 'PacketParser', 'exception': type(exc).__name__}, f'sink raising {type(exc).__name__} on packet {k}: {msg}', {'combo': combo, 'cuts': cuts, 'raise_on': k, 'exc': type(exc).__name__})
+                                break
                 # the other framers: same boundaries required
                 if len(cuts) <= 3 or n <= 12:
                     msg = run_blocking(pkts, data, cuts)
@@ -583,9 +608,14 @@ def replay(v: core.Violation):
     c = v.case
     tup = lambda combo: tuple(tuple(x) for x in combo)
     msgs = []
-    if v.check in ('push_chunking', 'blocking_chunking', 'async_chunking', 'usb_chunking'):
+    if v.check in ('push_chunking', 'push_sink_fault', 'blocking_chunking', 'async_chunking', 'usb_chunking'):
         pkts, data = build(tup(c['combo']))
-        if v.check == 'push_chunking':
+        if v.check == 'push_sink_fault':
+            import struct as _struct
+
+            exc = {'ValueError': ValueError('x'), 'error': _struct.error('x'), 'SinkFault': SinkFault('x'), 'KeyError': KeyError('x')}[c['exc']]
+            m = run_push(pkts, data, c['cuts'], None, c['raise_on'], exc)
+        elif v.check == 'push_chunking':
             m = run_push(pkts, data, c['cuts'])
         elif v.check == 'blocking_chunking':
             m = run_blocking(pkts, data, c['cuts'])
